@@ -6,6 +6,12 @@ use std::time::Instant;
 
 pub const VERIF_DIR: &str = "/verif";
 
+/// where evidence/ and replays/ are written; scratch runs against mutated copies of redb set
+/// VERIF_OUT_DIR so that they do not overwrite the evidence of the real tree
+pub fn out_dir() -> String {
+    std::env::var("VERIF_OUT_DIR").unwrap_or_else(|_| VERIF_DIR.to_string())
+}
+
 #[derive(Clone, Debug)]
 pub struct Violation {
     /// stable identification of the failing case class (panic site / oracle + input class)
@@ -109,11 +115,12 @@ impl Report {
         for v in &unknown {
             by_key.entry(v.key.clone()).or_insert(v);
         }
-        let _ = std::fs::create_dir_all(format!("{VERIF_DIR}/replays"));
+        let out = out_dir();
+        let _ = std::fs::create_dir_all(format!("{out}/replays"));
         let mut printed = 0;
         for (key, v) in &by_key {
             let h = fnv(&format!("{}{}", key, v.replay));
-            let path = format!("{VERIF_DIR}/replays/{}-{:016x}.json", self.property, h);
+            let path = format!("{out}/replays/{}-{:016x}.json", self.property, h);
             let body = json!({
                 "property": self.property,
                 "key": key,
@@ -140,8 +147,8 @@ impl Report {
             "wall_s": wall,
             "violations": by_key.len(),
         });
-        let _ = std::fs::create_dir_all(format!("{VERIF_DIR}/evidence"));
-        let path = format!("{VERIF_DIR}/evidence/{}.json", self.property);
+        let _ = std::fs::create_dir_all(format!("{out}/evidence"));
+        let path = format!("{out}/evidence/{}.json", self.property);
         if let Err(e) = std::fs::write(&path, serde_json::to_string_pretty(&ev).unwrap()) {
             eprintln!("machinery: cannot write {path}: {e}");
             return 2;
